@@ -1,6 +1,7 @@
-(* C16 (part 1) — masking never discloses more than the first six and last four characters. *)
-From Coq Require Import List Arith NArith.
-Require Import CU.model.Prim CU.model.Card CU.proofs.CardProofs.
+(* C16 — masking never discloses more than the first six and last four digits. *)
+From Coq Require Import List Arith NArith ZArith.
+Require Import CU.model.Prim CU.model.Types CU.model.Unicode CU.model.Codec CU.model.Dates CU.model.Card CU.model.Iso CU.spec.IsoSpec.
+Require Import CU.proofs.CardProofs CU.proofs.IsoFraming.
 Import ListNotations.
 
 Theorem C16_mask : forall s c, 10 <= length s ->
@@ -9,6 +10,27 @@ Theorem C16_mask : forall s c, 10 <= length s ->
   (forall i, 6 <= i < length s - 4 -> nth_error m i = Some c).
 Proof. exact mask_spec. Qed.
 Print Assumptions C16_mask.
+
+(* what one element contributes to the decoded dictionary *)
+Definition contributes (cfg : cfgT) (cd : codec) (data : bytes) (f : frame) (es : dict) : Prop :=
+  exists c, cfg_get cfg (fr_bit f) = Some c /\
+            iso_to_field (fr_bit f) c (skipn (fr_off f) data) cd = Ok (es, fr_plen f + fr_dlen f).
+
+(* the decoded dictionary is the MTI plus the contributions of the frames, merged in order; an element configured
+   for PAN masking contributes exactly one entry, its masked value; one configured for PAN prefix, the first nine
+   characters.  So the clear value of such an element reaches the dictionary nowhere. *)
+Theorem C16_decode : forall cfg cd hexbm b d, loads cfg cd hexbm b = Ok d ->
+  exists mti frames ess,
+    let data := skipn (if hexbm then 36 else 20) b in
+    tiles frames 0 (length data) /\
+    Forall2 (contributes cfg cd data) frames ess /\
+    d = fold_left dupdate ess [(KMTI, VStr mti)] /\
+    Forall2 (fun f es => forall c, cfg_get cfg (fr_bit f) = Some c ->
+               forall clear, decode cd (slice (fr_off f + fr_plen f) (fr_end f) data) = Ok clear ->
+               (f_proc c = PPAN -> f_ptype c = PTStr -> es = [(KDE (fr_bit f), VStr (mask clear star))]) /\
+               (f_proc c = PPANPREFIX -> f_ptype c = PTStr -> es = [(KDE (fr_bit f), VStr (firstn 9 clear))])) frames ess.
+Proof. exact c16_decode. Qed.
+Print Assumptions C16_decode.
 
 Example C16_mask_example :
   mask (map (fun d => dch d) [5;1;2;3;4;5;6;7;8;9;0;1;2;3;4;6]%N) star
